@@ -153,6 +153,25 @@ def analyse(ctx, code, must_complete, what):
     t3 = tifa_analysis()
     if _issues(t3) != first or bool(t3.success) != bool(t.success):
         ctx.fail({'symptom': 'fresh report yields different issues'}, program=code, first=first, third=_issues(t3))
+    # the same analysis addressed to a Report of the caller's own: same issues, recorded there and only there
+    from pedal.core.report import Report
+    mine = Report()
+    cmds.contextualize_report(code, report=mine)
+    g0 = (len(MAIN_REPORT.feedback), len(MAIN_REPORT.ignored_feedback))
+    ctx.step('tifa_analysis(report=own)')
+    try:
+        t4 = tifa_analysis(report=mine)
+        if _issues(t4) != first or bool(t4.success) != bool(t.success):
+            ctx.fail({'symptom': 'analysis on an own report yields different issues'}, program=code, first=first, own=_issues(t4))
+        if (len(MAIN_REPORT.feedback), len(MAIN_REPORT.ignored_feedback)) != g0:
+            ctx.fail({'symptom': 'analysis on an own report attached feedback to the global report'}, program=code,
+                     labels=sorted({f.label for f in MAIN_REPORT.feedback[g0[0]:]}))
+        recorded = {id(f) for f in mine.feedback} | {id(f) for f in mine.ignored_feedback}
+        lost = sorted({lab for lab, iss in t4.issues.items() for i in iss if id(i) not in recorded})
+        if lost:
+            ctx.fail({'symptom': 'issues of an analysis on an own report are not recorded on that report'}, program=code, labels=lost)
+    except BaseException as e:   # noqa
+        ctx.fail({'symptom': 'tifa_analysis(report=own) raised', 'exception': type(e).__name__}, program=code, message=str(e)[:200])
     if not t.success:
         if must_complete:
             ctx.fail({'symptom': 'internal failure instead of a completed analysis', 'what': what,
